@@ -31,7 +31,7 @@ Inductive hout (B : Type) := HOk (body : B) | HErr (body : B).
 Arguments HOk {B}. Arguments HErr {B}.
 Inductive rout (B : Type) :=
 | ROk (next : option (Z * B)) (reset_id : bool)   (* follow-up request (exchange, payloads); my_msg_id := 0 first *)
-| RErr.
+| RErr (reset_id : bool).                         (* the handler raised (after my_msg_id := 0 if set) *)
 Arguments ROk {B}. Arguments RErr {B}.
 
 (** Everything exchange-specific, as parameters. *)
@@ -163,7 +163,7 @@ Section Shell.
         let '(i', out) := handle_response (inner s0) m in
         let s1 := with_inner s0 i' in
         match out with
-        | RErr => (with_state s1 ST_DELETED, None)
+        | RErr reset => (with_state (if reset then set_my_id s1 0 else s1) ST_DELETED, None)
         | ROk (Some (exch, body)) reset =>
             let s2 := if reset then set_my_id s1 0 else s1 in
             let '(s3, d) := send_request s2 now (mk_dgram (stamp_request s2 exch) body) in (s3, Some d)
